@@ -6,7 +6,7 @@
 From Coq Require Import Lia Permutation.
 From ChitchatModel Require Import Base SMap Ids Bytes Params NodeState Stream DeltaWire Message Cluster
   FD Chitchat World Monitors SMap_lemmas NodeState_lemmas Builder_lemmas Stream_lemmas Cluster_lemmas
-  Chitchat_lemmas Inv Agreement DeltaRefine Compute_lemmas Prefix_lemmas NodeInv Truth NodeTruth KV_lemmas FD_lemmas Liveness_lemmas.
+  Chitchat_lemmas Inv Agreement DeltaRefine Compute_lemmas Prefix_lemmas NodeInv Truth NodeTruth KV_lemmas FD_lemmas Liveness_lemmas Weak.
 
 (* the truth after the owner [X] performed a local write and now holds the own copy [c] *)
 Definition sync_truth (T : truth) (X : id) (c : copy) : truth :=
@@ -36,7 +36,7 @@ Proof.
     + intros Y w H. left. exact H.
     + intros Y. destruct (id_eqb Y X) eqn:E; [apply id_eqb_eq in E; subst; lia|lia].
     + intros Y. destruct (id_eqb Y X) eqn:E; [apply id_eqb_eq in E; subst; lia|lia].
-    + intros Y w [H|(-> & k & v & Hin & -> & Hlt)] Hn; [contradiction|]. cbn. exact Hlt.
+    + intros Y w [H|(-> & k & v & Hin & -> & Hlt)]; [left; exact H|right; cbn; exact Hlt].
   - split; cbn.
     + intros Y w [H|(-> & k & v & Hin & -> & Hlt)].
       * destruct (Hr Y w H) as [A B]. split; [exact A|].
@@ -209,6 +209,8 @@ Record GInv2 (g : gstate) : Prop := mkGInv2 {
 Section Global.
   Variable zc : bytes -> option bytes.
   Hypothesis zc_len : forall b c, zc b = Some c -> len c <= len b.
+  (* strict = true: deliveries that perform a weak acceptance (known class KF-1) are excluded *)
+  Variable strict : bool.
 
   Inductive gstep : gstate -> gstate -> Prop :=
   | GS_join g cfg initial :
@@ -237,6 +239,7 @@ Section Global.
       gstep g (mkG (g_w g) (create_syn_message (w_now (g_w g)) n :: g_sent g) (g_T g))
   | GS_deliver g a n m ord n' reply evs :
       node_at g a = Some n -> In m (g_sent g) ->
+      (strict = true -> msg_weak (w_now (g_w g)) n m = false) ->
       process_message zc (w_now (g_w g)) n m ord = Ok (n', reply, evs) ->
       gstep g (mkG (with_nodes (g_w g) (set_nth (w_nodes (g_w g)) a n')) (opt_cons reply (g_sent g))
                    (bump_hb (g_T g) (self_id n))).
@@ -465,6 +468,7 @@ End Global2.
 Section Global3.
   Variable zc : bytes -> option bytes.
   Hypothesis zc_len : forall b c, zc b = Some c -> len c <= len b.
+  Variable strict : bool.
 
   Lemma set_all_gc_hb : forall initial c, c_gc (set_all c initial) = c_gc c /\ c_hb (set_all c initial) = c_hb c.
   Proof.
@@ -550,7 +554,7 @@ Section Global3.
   Qed.
 
   (* ======================= the global invariant ======================= *)
-  Theorem reachable_inv : forall g, reachable zc g -> GInv2 g.
+  Theorem reachable_inv : forall g, reachable zc strict g -> GInv2 g.
   Proof.
     induction 1 as [|g g' Hr IH Hstep]; [apply ginv_init|].
     destruct Hstep.
@@ -565,7 +569,7 @@ Section Global3.
   Qed.
 
   (* every gstep is a step of the executable World.step the correspondence driver runs *)
-  Theorem gstep_is_world_step : forall g g', gstep zc g g' ->
+  Theorem gstep_is_world_step : forall g g', gstep zc strict g g' ->
     (exists op obs, step zc (g_w g) op = Ok (g_w g', obs)) \/ g_w g' = g_w g.
   Proof.
     intros g g' H. destruct H; unfold node_at in *; cbn [g_w].
@@ -582,6 +586,6 @@ Section Global3.
     - left. exists (WTick dt), no_obs. reflexivity.
     - left. exists (WEval a oracle), no_obs. unfold step, with_node. rewrite H. reflexivity.
     - right. reflexivity.
-    - left. exists (WProc a m ord), (mkObs reply evs). unfold step, with_node. rewrite H, H1. reflexivity.
+    - left. exists (WProc a m ord), (mkObs reply evs). unfold step, with_node. rewrite H, H2. reflexivity.
   Qed.
 End Global3.
